@@ -242,10 +242,10 @@ func finishCheck(o checkOpts, results []*funcResult, e *Engine, problems []strin
 		if _, un := ent.Unclaimed[ob.group()]; un {
 			continue
 		}
-		if ob.Result != "sat" {
+		if ob.Result != "sat" && ob.Kind != "ensures" {
 			continue
 		}
-		v := &violation{Obligation: ob.Name, Reason: "new obligation fails with a model", Pos: ob.Pos, Solver: ob.Solver, Status: ob.Result, Output: trunc(ob.Output, 4000), SmtFile: ob.SmtFile, Function: ob.Fn, Property: o.prop}
+		v := &violation{Obligation: ob.Name, Reason: "new obligation fails and its failure replays on the real code", Pos: ob.Pos, Solver: ob.Solver, Status: ob.Result, Output: trunc(ob.Output, 4000), SmtFile: ob.SmtFile, Function: ob.Fn, Property: o.prop}
 		if tryReplay(o, e, results, ob, v) {
 			viols = append(viols, v)
 		}
